@@ -13,12 +13,41 @@ pub struct ContentSpec {
     pub len: usize,
 }
 
-pub const N_CONTENT_KINDS: u32 = 8;
+pub const N_CONTENT_KINDS: u32 = 9;
+
+/// Kind 8 ("sparse"): random segments alternating with long runs of one byte value (mostly zero). Returns the region
+/// lengths (segment, run, segment, run, …) that `gen_content` uses for the same spec.
+pub fn sparse_region_lens(spec: &ContentSpec) -> Vec<usize> {
+    let mut rng = Rng::new(spec.seed ^ 0x5BA25E);
+    let mut out = Vec::new();
+    let mut left = spec.len;
+    let mut seg = true;
+    while left > 0 {
+        let l = if seg { rng.urange(1, 3000) } else { *rng.pick(&[64usize, 4095, 4096, 4097, 9000, 20_000]) + rng.urange(0, 300) };
+        let l = l.min(left);
+        out.push(l);
+        left -= l;
+        seg = !seg;
+    }
+    out
+}
 
 pub fn gen_content(spec: &ContentSpec) -> Vec<u8> {
     let mut rng = Rng::new(spec.seed ^ 0xC0FFEE);
     let n = spec.len;
     match spec.kind % N_CONTENT_KINDS {
+        8 => {
+            let mut v = Vec::with_capacity(n);
+            let fill = if rng.chance(3, 4) { 0u8 } else { rng.below(256) as u8 };
+            for (i, l) in sparse_region_lens(spec).into_iter().enumerate() {
+                if i % 2 == 0 {
+                    v.extend_from_slice(&rng.bytes(l));
+                } else {
+                    v.extend(std::iter::repeat(fill).take(l));
+                }
+            }
+            v
+        },
         0 => rng.bytes(n),
         1 => vec![rng.below(256) as u8; n],
         2 => {
